@@ -199,7 +199,7 @@ func genHive2(run *hx.Run, add func(*Case)) {
 		mkp("", []hvPeer{vr})
 	}
 	mkp("pingfail", variants[:4])
-	for i := 0; i < run.N(4, 40); i++ {
+	for i := 0; i < run.N(2, 40); i++ {
 		var ps []hvPeer
 		for k := 1 + r.Intn(3); k > 0; k-- {
 			ps = append(ps, variants[r.Intn(len(variants))])
